@@ -10,6 +10,8 @@ FLAVOURS = {
     'prod': dict(cxx='g++', flags=['-std=gnu++17', '-O2', '-g', '-march=haswell'], libs=['-lrapidcheck']),
     'wsm': dict(cxx='g++', flags=['-std=gnu++17', '-O2', '-g', '-march=westmere'], libs=['-lrapidcheck']),
     'dyn': dict(cxx='g++', flags=['-std=gnu++17', '-O2', '-g', '-march=westmere', '-DSONIC_DYNAMIC_DISPATCH'], libs=['-lrapidcheck']),
+    # link flavour for the multi-configuration binary of C15: parts carry their own -march / sanitizer flags
+    'multi': dict(cxx='g++', flags=['-std=gnu++17', '-O1', '-g', '-fsanitize=address'], libs=['-lrapidcheck']),
     'tsan': dict(cxx='clang++', flags=['-std=gnu++17', '-O1', '-g', '-march=haswell', '-fsanitize=thread'],
                  libs=['-lrapidcheck', '-lpthread']),
     'fuzz': dict(cxx='clang++', flags=['-std=gnu++17', '-O1', '-g', '-march=haswell', ASAN_SAN.replace('address', 'fuzzer,address'),
@@ -511,6 +513,39 @@ PROPS['C17'] = dict(
                       'shared:operator[]-missing-key', 'shared:with-map'],
     technique='generated multi-threaded scripts under ThreadSanitizer (happens-before race detection) with post-join differential against single-threaded results',
     assumptions=['a race on a path no generated script executes is invisible; lock liveness and weak-memory effects beyond TSan are not addressed'],
+)
+
+_P = ['-std=gnu++17', '-g']
+c15 = B('c15_configs', 'c15_configs.cpp', 'multi', parts=[
+    dict(src='c15_part.cpp', flags=_P + ['-O2', '-march=haswell', '-Dsonic_json=sonic_hsw', '-DCFG_FN=digest_hsw']),
+    dict(src='c15_part.cpp', flags=_P + ['-O2', '-march=westmere', '-Dsonic_json=sonic_wsm', '-DCFG_FN=digest_wsm']),
+    dict(src='c15_part.cpp', flags=_P + ['-O2', '-march=westmere', '-DSONIC_DYNAMIC_DISPATCH', '-Dsonic_json=sonic_dyn', '-DCFG_FN=digest_dyn']),
+    dict(src='c15_part.cpp', flags=_P + ['-O1', '-fsanitize=address', '-march=haswell', '-Dsonic_json=sonic_hsw_asan', '-DCFG_FN=digest_hsw_asan']),
+    dict(src='c15_part.cpp', flags=_P + ['-O1', '-fsanitize=address', '-march=westmere', '-Dsonic_json=sonic_wsm_asan', '-DCFG_FN=digest_wsm_asan']),
+    dict(src='c15_part.cpp', flags=_P + ['-O1', '-fsanitize=address', '-march=westmere', '-DSONIC_DYNAMIC_DISPATCH', '-Dsonic_json=sonic_dyn_asan',
+                                        '-DCFG_FN=digest_dyn_asan']),
+])
+PROPS['C15'] = dict(
+    title='All supported x86 build configurations compute identical results',
+    units=[
+        U(c15, 'prng', 25000, 1500000, wq=8, wt=10, label='c15-prng', asan_options='detect_leaks=0'),
+        U(c15, 'rc', 1500, 40000, wq=3, wt=4, label='c15-rc', asan_options='detect_leaks=0'),
+    ],
+    rule='cases: (text, path, second text). Texts: generated values rendered with random layouts (whitespace runs, pad 0..70, escaped '
+         'strings, long keys) and one third of them mutated into invalid texts; paths: existing ones and wrong continuations; '
+         'second text: another generated value (occasionally mutated). Six instantiations of the library are linked into one '
+         'binary, each compiled in its own namespace with its own flags: {static -march=haswell, static -march=westmere, '
+         '-march=westmere -DSONIC_DYNAMIC_DISPATCH} x {g++ -O2 production, g++ -O1 -fsanitize=address}. Oracle: the six digests '
+         'are byte-identical: accept/reject with error code and offset (collapsed to one class for the three string-literal '
+         'codes, as the property allows), Dump, deep copy + FindMember (view / pointer+length) indices + CreateMap + HasMember + '
+         'RemoveMember/Erase + Dump + ==, GetOnDemand error code or slice offset/length, ParseSchema result, UpdateLazy result. '
+         'Non-trivial: >= 17 bytes with a string or whitespace run crossing a 16-byte boundary. evaluations counts the five '
+         'pairwise comparisons per case as sub-evaluations.',
+    min_evaluations=dict(quick=100000, thorough=2000000),
+    required_classes=['input:valid', 'input:truncate', 'input:replace'],
+    technique='differential property testing across six in-process build configurations of the library (rapidcheck + seeded PRNG)',
+    assumptions=['the dynamic-dispatch resolver selects AVX2 on this host; its SSE branch is exercised through the static westmere '
+                 'configuration only', 'g++ only: the dynamic-dispatch configuration does not link with clang 14'],
 )
 
 
